@@ -247,7 +247,7 @@ func roleByName(name string) *roleSpec {
 // valCheck returns the role's real value-check function (ssv-spec).
 func (rs *roleSpec) valCheck(km spectypes.KeyManager) specqbft.ProposedValueCheckF {
 	pk := testingutils.TestingValidatorPubKey[:]
-	idx := testingutils.TestingValidatorIndex
+	idx := phase0.ValidatorIndex(testingutils.TestingValidatorIndex)
 	switch rs.role {
 	case spectypes.BNRoleAttester:
 		return specssv.AttesterValueCheckF(km, spectypes.BeaconTestNetwork, pk, idx, nil)
